@@ -15,6 +15,7 @@ pub mod tunnelreq;
 pub mod c11;
 pub mod c13;
 pub mod c14;
+pub mod c15;
 pub mod c19;
 pub mod pipes;
 
@@ -99,6 +100,13 @@ pub static PROPS: &[PropDef] = &[
         level: "exploration",
         run: c05::run,
         replay: c05::replay,
+        workers: w16,
+    },
+    PropDef {
+        id: "C15",
+        level: "fault_enumeration",
+        run: c15::run,
+        replay: c15::replay,
         workers: w16,
     },
     PropDef {
